@@ -485,8 +485,10 @@ Proof.
   destruct domain_root.
   - pose proof (copy_path_m_OK muri_empty src s) as K2. destruct (copy_path_m_TR muri_empty src s) as [M2 _].
     destruct (copy_path_m muri_empty src s) as [[[|] d2] s2]; cbn [negb]; cbv beta iota; [|okleaf].
-    pose proof (fix_ambiguity_m_OK (set_m_abs true d2) s2) as K4.
-    destruct (fix_ambiguity_m (set_m_abs true d2) s2) as [[[|] d4] s4]; cbn [negb]; cbv beta iota; okleaf.
+    destruct (fix_empty_trail_m_clean (set_m_abs true d2) s2) as [K3 M3].
+    destruct (fix_empty_trail_m (set_m_abs true d2) s2) as [d3 s3].
+    pose proof (fix_ambiguity_m_OK d3 s3) as K4.
+    destruct (fix_ambiguity_m d3 s3) as [[[|] d4] s4]; cbn [negb]; cbv beta iota; okleaf.
   - destruct (skip_common (pathSegs (erase src)) (pathSegs (erase base))) as [s' b'].
     match goal with |- context [append_segs [] ?tt s] => pose proof (append_segs_OK tt [] s) as K; destruct (append_segs [] tt s) as [[[|] segs] s1] end; okleaf.
 Qed.
